@@ -45,7 +45,13 @@ class C09(GProp):
             parts = []
             for j in range(k):
                 q = r.choice([['one', 'A'], ['one', 'B'], ['seq', 'A', 'B'], ['any', 'A', 'B'], ['maybe', ['one', 'A']], ['both', ['one', 'A'], ['one', 'A']]])
-                parts.append(wrap(r.choice(WRAPS), q, r))
+                wq = wrap(r.choice(WRAPS), q, r)
+                k2 = r.below(5)
+                # a failing wrapped parser absorbed by an enclosing optional / alternative: its failure path must not leak either
+                if k2 == 0: wq = ['maybe', wq]
+                elif k2 == 1: wq = ['either', wq, 'empty']
+                elif k2 == 2: wq = wrap(r.choice(WRAPS), wq, r)
+                parts.append(wq)
                 parts.append(['probe', j + 1])
             P = r.choice([['recoverdef', ['before', 'Semi'], ['one', 'A']], ['recover', ['after', 'Semi'], ['seq', 'A', 'B']],
                           ['listdef', ['one', 'A'], 'Comma', ['Semi']], ['stabilize', ['recoverdef', ['before', 'Semi'], ['one', 'B']]]])
